@@ -290,6 +290,28 @@ func c11Roundtrip(c c11Case) *vstat.Violation {
 		if v := samePub("confpem-pub", gp, err); v != nil {
 			return v
 		}
+		// a well-formed PEM of the other kind handed to a parser: an error, never a key and never (nil, nil)
+		for name, f := range map[string]func() (bool, error){
+			"confparse.ParsePrivateKeyPEM(public key PEM)": func() (bool, error) { k, e := confparse.ParsePrivateKeyPEM(pubpem); return k != nil, e },
+			"confparse.ParsePrivateKey(public key PEM)": func() (bool, error) {
+				k, e := confparse.ParsePrivateKey(c.Pad + string(pubpem) + c.Pad)
+				return k != nil, e
+			},
+			"confparse.ParsePublicKeyPEM(private key PEM)": func() (bool, error) { k, e := confparse.ParsePublicKeyPEM(pm); return k != nil, e },
+			"confparse.ParsePublicKey(private key PEM)": func() (bool, error) {
+				k, e := confparse.ParsePublicKey(c.Pad + string(pm) + c.Pad)
+				return k != nil, e
+			},
+			"keypem.ParsePubKeyPem(private key PEM)": func() (bool, error) { k, e := keypem.ParsePubKeyPem(pm); return k != nil, e },
+		} {
+			hasKey, e := f()
+			if hasKey && name != "confparse.ParsePublicKey(private key PEM)" && name != "confparse.ParsePublicKeyPEM(private key PEM)" && name != "keypem.ParsePubKeyPem(private key PEM)" {
+				return vstat.Viol("pem-of-other-kind-accepted", "%s returned a key", name)
+			}
+			if !hasKey && e == nil {
+				return vstat.Viol("nil-nil", "%s returned neither a key nor an error", name)
+			}
+		}
 		// config b64 helpers
 		d, err := crypto.ConfigDecodeKey(crypto.ConfigEncodeKey(b))
 		if err != nil || !bytes.Equal(d, b) {
